@@ -240,15 +240,16 @@ Definition with_alt (p : params) (maxtt : Z) (ex : list nat) : params :=
      q_maxacc := q_maxacc p; q_maxegr := q_maxegr p; q_maxtr := q_maxtr p; q_maxfw := q_maxfw p;
      q_fwd := q_fwd p; q_except_lines := ex |}.
 
-Definition MAX_ALTERNATIVES : Z := 200.
-Definition MAX_VALID_ALTERNATIVES : Z := 50.
-Definition ALT_MIN_MAXTT : Z := 1800.
-Definition ALT_ADDED : Z := 3600.
+(* generated from parameters.hpp:192-196 *)
+Definition MAX_ALTERNATIVES : Z := GEN_MAX_ALTERNATIVES.
+Definition MAX_VALID_ALTERNATIVES : Z := GEN_MAX_VALID_ALTERNATIVES.
+Definition ALT_MIN_MAXTT : Z := GEN_ALT_MIN_MAXTT.
+Definition ALT_ADDED : Z := GEN_ALT_ADDED.
 
 (* alternatives_routing.cpp:126-135; 1.75f * t is exact in float below 2^22 s *)
 Definition alt_maxtt (p : params) (r : route) : Z :=
   let slack := if q_fwd p then rt_dep r - q_time p else 0 in
-  let m0 := Z.quot (7 * rt_ttt r + 4 * slack) 4 in
+  let m0 := Z.quot (GEN_ALT_RATIO_QUARTERS * rt_ttt r + 4 * slack) 4 in
   let m1 := if m0 <? ALT_MIN_MAXTT then ALT_MIN_MAXTT
             else if m0 >? rt_ttt r + ALT_ADDED then rt_ttt r + ALT_ADDED else m0 in
   Z.min m1 (q_maxtt p).
